@@ -5,7 +5,8 @@
 From Coq Require Import ZArith NArith List Bool.
 From Centro Require Import Base.Topo Base.Skel Base.TopoPar Base.TopoSweep Base.TopoGrid Gen.TablesC05.
 From Centro Require Import Model.ThinSkel Spec.TopoCheck Proofs.ThinSkelTopo Proofs.ThinSkelIdem Proofs.TopoCounts
-  Proofs.TopoSwShrinkEnd Proofs.ShrinkPoint Proofs.LabelsIndep Proofs.TopoCheckComplete.
+  Proofs.TopoSwShrinkEnd Proofs.ShrinkPoint Proofs.LabelsIndep Proofs.TopoCheckComplete
+  Proofs.EndPixelParity Proofs.EndPixelSep Proofs.EndPixel Proofs.ShrinkPointFull.
 Open Scope Z_scope.
 
 (* skeletonize_loop with the current removal table: every image size, every image, every
@@ -103,17 +104,32 @@ Theorem C05_shrink_stable_no_end : forall H W g, wf H W g -> run_passes H W shri
 Proof. exact shrink_stable_no_end. Qed.
 Print Assumptions C05_shrink_stable_no_end.
 
-(* _partial: the full statement (every connected hole-free non-empty image is reduced to exactly
-   one pixel, every size) is proved FROM the one missing lemma [EndPixelLemma]: every connected
-   hole-free finite image with at least two pixels has a pixel with an end pattern (global, Jordan-
-   curve style; validated outside Coq: binary_shrink(-1) leaves one pixel of every hole-free object
-   of every image up to 4x4, 3x5, 5x3 and of all random images of every run). *)
-Theorem C05_shrink_to_point_partial : EndPixelLemma ->
-  forall H W g, wf H W g -> connected (img_of g) -> hole_free (img_of g) ->
+(* The end-pixel lemma (round 3): every connected hole-free image with at least two pixels has an
+   end pixel.  Strong induction on the number of pixels, removing the last pixel in raster order;
+   local facts by a kernel sweep over the 3x5 window around it (Proofs/TopoSwEndLocal.v); the one
+   global fact - the two sides of a "separated" last pixel are not connected without it - by a
+   crossing-parity (Jordan curve) argument (Proofs/EndPixelParity.v, EndPixelSep.v). *)
+Theorem C05_end_pixel : forall H W g, wf H W g -> connected (img_of g) -> hole_free (img_of g) ->
+  (exists a b, a <> b /\ img_of g a = true /\ img_of g b = true) ->
+  exists p, img_of g p = true /\ end_pattern (pat (img_of g) p) = true.
+Proof. exact end_pixel_lemma. Qed.
+Print Assumptions C05_end_pixel.
+
+(* the general form: any finite hole-free image (not necessarily connected), any pixel x with a
+   neighbour, any excluded pixel q: an end pixel other than q in the 8-component of x *)
+Theorem C05_end_pixel_fin : forall n (X : img) L, (length L <= n)%nat -> (forall q, X q = true -> In q L) ->
+  hole_free' X -> forall x q, X x = true -> (exists y, adj8 x y /\ X y = true) ->
+  exists e, X e = true /\ endp X e = true /\ e <> q /\ conn8 X x e.
+Proof. exact end_pixel_fin. Qed.
+Print Assumptions C05_end_pixel_fin.
+
+(* Full: binary_shrink run to convergence reduces every connected hole-free non-empty image, of
+   every size, to exactly one pixel (the property's sentence; by TopoEq it lies in the object). *)
+Theorem C05_shrink_to_point : forall H W g, wf H W g -> connected (img_of g) -> hole_free (img_of g) ->
   (exists a, img_of g a = true) ->
   exists q, forall p, img_of (shrink_model H W (-1) g) p = true <-> p = q.
-Proof. exact shrink_to_point_partial. Qed.
-Print Assumptions C05_shrink_to_point_partial.
+Proof. exact shrink_to_point. Qed.
+Print Assumptions C05_shrink_to_point.
 
 (* skeletonize_labels over the colouring model (any colouring in which pixels of one label share a
    colour and 8-adjacent different labels differ in colour; any guard; any per-colour order): the
